@@ -335,7 +335,7 @@ def main():
             for _ in range(tries):
                 evs, raw = native_replay(pkg, [case], tags=run.get("tags"))
                 ev = evs[0] if evs else []
-                if v["kind"] == "assert" and ("A:%s:0" % vid) in ev:
+                if v["kind"] == "assert" and (("A:%s:0" % vid) in ev or "fatal error:" in raw):
                     break
                 if v["kind"] == "panic" and (any(e.startswith("P:") for e in ev) or "panic:" in raw):
                     break
@@ -344,7 +344,9 @@ def main():
         elif run.get("trace"):
             ok = trace_ok
         elif v["kind"] == "assert":
-            ok = ("A:%s:0" % vid) in ev
+            # the same assertion fails natively - or the real build dies outright on these inputs
+            # (e.g. a write through a slice that aliases read-only mmap'd memory)
+            ok = ("A:%s:0" % vid) in ev or "fatal error:" in raw or "unexpected fault address" in raw
         elif v["kind"] == "panic":
             ok = any(e.startswith("P:") for e in ev) or "panic:" in raw
         else:
